@@ -13,7 +13,7 @@ JAR = "/opt/veriftools/tla/tla2tools.jar"
 WORK = os.path.join(VERIF, "work")
 
 DEVIATIONS = ["DeepWrapRefills", "ShallowPriority", "AbsLookup", "FnTruthyWhenEmpty",
-              "StreamLeaksMerge", "DefaultSafeOverwrite", "ClearDropsDelTagged"]
+              "StreamLeaksMerge", "DefaultSafeOverwrite", "ClearDropsDelTagged", "NoCycleCheck"]
 
 
 class TLCError(Exception):
@@ -127,6 +127,8 @@ def run(module, cfg, wd, workers=16, timeout=1200, env=None, simulate=None, dept
     for m in re.finditer(r"Invariant (\S+) is violated", out):
         res["violated"].append(m.group(1))
     for m in re.finditer(r"Action property (\S+) is violated", out):
+        res["violated"].append(m.group(1))
+    for m in re.finditer(r"Temporal property (\S+) was violated", out):
         res["violated"].append(m.group(1))
     if "Temporal properties were violated" in out:
         res["violated"].append("<temporal>")
